@@ -91,7 +91,11 @@ func (g *gen) length() string {
 	case 3:
 		return fmt.Sprintf("-%dpx", r.Range(1, 3000))
 	case 4:
-		return vlib.Pick(r, []string{"1e9px", "99999999px", "1e38px", "1e39px", "3.5e38px", "0.0001px", "1e-40px", "-1e9px", "1e9em", "100000%"})
+		// huge values: mostly "large" (a 1e5px box is ~100 pages), rarely astronomic
+		if r.Chance(1, 5) {
+			return vlib.Pick(r, []string{"1e9px", "99999999px", "1e38px", "1e39px", "3.5e38px", "-1e9px", "1e9em", "100000%"})
+		}
+		return vlib.Pick(r, []string{"1e5px", "30000px", "99999px", "0.0001px", "1e-40px", "-1e5px", "1e4em", "5000%", "2e4pt"})
 	case 5:
 		return fmt.Sprintf("%dem", r.Range(0, 12))
 	case 6:
